@@ -129,7 +129,58 @@ func runOp(kind string, g int, seed int64, i int) (out string) {
 		if err != nil {
 			return "err"
 		}
-		return digest(projMsg(m))
+		// the caller goes on with what it decoded: Ni | Nr built by appending to the decoded nonce, the KE value extended --
+		// its own slices now, nothing of that may reach the shared datagram
+		var ext []any
+		for _, p := range m.Payloads {
+			switch x := p.(type) {
+			case *message.Nonce:
+				ext = append(ext, octOf(append(x.NonceData, fillPattern("seeded", 32, g+1)...)))
+			case *message.KeyExchange:
+				ext = append(ext, octOf(append(x.KeyExchangeData, byte(g), byte(i))))
+			case *message.Notification:
+				ext = append(ext, octOf(append(x.NotificationData, byte(g))))
+			}
+		}
+		return digest(J{"msg": projMsg(m), "ext": ext})
+	case "reject_then_accept":
+		// one owner working sequentially on its own SA: a datagram that cannot be unprotected (ciphertext not a block multiple,
+		// cut short, altered), then at once the genuine one -- refused and accepted exactly as when each is handled alone
+		suite := suiteByIndex((g+i)%9 + 1)
+		keys := patternKeys(suite, g+50)
+		s1, err := newSA(suite, keys, false)
+		if err != nil {
+			return "infra: " + err.Error()
+		}
+		s2, _ := newSA(suite, keys, false)
+		mj := J{"ispi": be(uint64(g), 8), "rspi": be(9, 8), "maj": 2, "min": 0, "xt": 37, "flags": 8, "mid": be(uint64(i), 4),
+			"payloads": []any{J{"k": "NONCE", "data": fillPattern("seeded", 40+g%7, g)}}}
+		m1, _ := buildMsg(mj)
+		w, err := ike.EncodeEncrypt(m1, s1.key, message.Role_Initiator)
+		if err != nil {
+			return "err"
+		}
+		var verdicts []any
+		for k := 0; k < 6; k++ {
+			bad := append([]byte{}, w...)
+			switch k % 3 {
+			case 0:
+				bad = bad[:len(bad)-5] // no longer a whole number of blocks
+			case 1:
+				bad[len(bad)-20] ^= 0x40
+			default:
+				bad = append(bad[:60], bad[len(bad)-12:]...)
+			}
+			binary.BigEndian.PutUint32(bad[24:28], uint32(len(bad)))
+			if len(bad) >= 32 {
+				binary.BigEndian.PutUint16(bad[30:32], uint16(len(bad)-28))
+			}
+			_, e1 := ike.DecodeDecrypt(bad, nil, s2.key, message.Role_Responder)
+			m2, e2 := ike.DecodeDecrypt(append([]byte{}, w...), nil, s2.key, message.Role_Responder)
+			ok := e2 == nil && m2 != nil && len(m2.Payloads) == 1
+			verdicts = append(verdicts, e1 != nil, ok)
+		}
+		return digest(verdicts)
 	case "decode_unknown":
 		// own datagram (a copy of the shared one) with an unsupported, non-critical payload spliced in front: the skip
 		// path of the chain walker, on every goroutine at once
